@@ -12,7 +12,7 @@ SCRATCH_PARENT = os.environ.get("VERIF_SCRATCH", "/tmp")
 
 class Proc:
     def __init__(self, name, kind="cattok", tok=None, ins=(), pars=(), outs=(("out", None),), cores=1, fail="none", failkey="",
-                 extra=(), gofunc=False, sleep=None, stream_outs=(), join=(), exts=None, rdv=0, pre=""):
+                 extra=(), gofunc=False, sleep=None, stream_outs=(), join=(), exts=None, rdv=0, pre="", pause=None):
         self.name, self.kind, self.tok = name, kind, tok or ("tok_" + name)
         self.ins = list(ins)          # [(port, [(upnode, upport), ...])]
         self.pars = list(pars)        # [(port, ("U", node) | ("V", [vals]))]
@@ -23,6 +23,7 @@ class Proc:
         self.exts = exts or {}
         self.rdv = rdv
         self.pre = pre                # extra shell text placed before the body (rendezvous etc.)
+        self.pause = pause            # e.g. "sleep 0.2": the body of a cattok command writes in two pieces with this pause in between
 
     def key_pattern(self):
         k = self.name
@@ -47,7 +48,7 @@ class Proc:
         elif self.kind == "cat":
             body = ("cat " + ins) if ins else "printf ''"
         else:
-            body = ("cat " + ins + "; " if ins else "") + "echo " + line
+            body = ("cat " + ins + " && " if ins else "") + (self.pause + " && " if self.pause else "") + "echo " + line
         def oph(port):
             ext = self.exts.get(port)
             return "{%s:%s%s}" % ("os" if port in self.stream_outs else "o", port, ("|." + ext) if ext else "")
@@ -71,13 +72,14 @@ class Proc:
             parts.append("( %s ) > /dev/null" % body)
         for x in self.extra:
             d = os.path.dirname(x)
-            parts.append(("mkdir -p %s; " % d if d else "") + "echo %s > %s" % (self.tok, x))
+            parts.append(("mkdir -p %s && " % d if d else "") + "echo %s > %s" % (self.tok, x))
         if self.fail == "afterfull":
             parts.append(case("exit 1"))
         if self.fail == "omit":
             parts.append(case("rm -f %s" % last))
         parts.append('echo "E %s" $(date +%%s%%N) >> "$VERIF_TRACE"' % key)
-        return "; ".join(parts)
+        # joined with && so that a failing piece (a command killed by SIGPIPE, a missing input) fails the task
+        return " && ".join(parts)
 
     def line(self):
         s = "PROC %s %d %s %s %s %s %s" % (hx(self.name), self.cores, self.kind, hx(self.tok), self.fail, hx(self.failkey), hx(self.pattern()))
